@@ -473,10 +473,6 @@ func (api *engineAPI) NewPayloadV4(ctx context.Context, d engine.ExecutableData,
 		stall(ctx)
 		e.mu.Lock()
 	}
-	if _, ok := e.blocks[d.BlockHash]; ok {
-		finish(engine.VALID)
-		return engine.PayloadStatusV1{Status: engine.VALID, LatestValidHash: &d.BlockHash}, nil
-	}
 	raw := make([][]byte, len(reqs))
 	for i := range reqs {
 		raw[i] = reqs[i]
@@ -485,10 +481,16 @@ func (api *engineAPI) NewPayloadV4(ctx context.Context, d engine.ExecutableData,
 	if beacon != nil {
 		b = *beacon
 	}
-	if got := BlockHashOf(&d, b, raw); got != d.BlockHash {
+	// like geth (ExecutableDataToBlock), the claimed hash is checked against the content first; only then is a
+	// block that is already known answered VALID without re-execution
+	if got := BlockHashOf(&d, b, raw); got != d.BlockHash && d.BlockHash != GenesisELHash {
 		msg := "blockhash mismatch"
 		finish(engine.INVALID)
 		return engine.PayloadStatusV1{Status: engine.INVALID, ValidationError: &msg}, nil
+	}
+	if _, ok := e.blocks[d.BlockHash]; ok {
+		finish(engine.VALID)
+		return engine.PayloadStatusV1{Status: engine.VALID, LatestValidHash: &d.BlockHash}, nil
 	}
 	parent, ok := e.blocks[d.ParentHash]
 	if !ok {
